@@ -185,27 +185,84 @@ def check(run, prog):
     gi = [n for n in main.node.body if isinstance(n, ast.If) and "use_gitignore" in text(n.test)]
     run.require(len(gi) == 1, "anchor vanished: the --use-gitignore block of main")
     blk = gi[0]
-    loops = [n for n in blk.body if isinstance(n, ast.For)]
-    ok = len(loops) == 1 and text(loops[0].iter) == "files"
-    newlist = None
-    if ok:
-        tv = text(loops[0].target)
-        apps = [n for n in ast.walk(loops[0]) if isinstance(n, ast.Call) and isinstance(n.func, ast.Attribute) and n.func.attr == "append"]
-        ok = len(apps) >= 1 and all(len(a.args) == 1 and text(a.args[0]) == tv for a in apps)
-        newlist = text(apps[0].func.value) if apps else None
-        ok = ok and all(text(a.func.value) == newlist for a in apps)
-        # the appends are conditional on the exit code
-        ok = ok and all(any(isinstance(x, ast.If) and "exit_code" in text(x.test) for x in ancestors(a)) for a in apps)
-        # new list starts empty, and replaces files afterwards
-        init = [n for n in blk.body if isinstance(n, ast.Assign) and text(n.targets[0]) == newlist]
-        ok = ok and len(init) == 1 and isinstance(init[0].value, ast.List) and not init[0].value.elts
-        fin = [n for n in blk.body if isinstance(n, ast.Assign) and text(n.targets[0]) == "files"]
-        ok = ok and len(fin) == 1 and text(fin[0].value) == newlist
-        cmd = [n for n in ast.walk(loops[0]) if isinstance(n, ast.List) and any(isinstance(e, ast.Constant) and e.value == "check-ignore" for e in n.elts)]
-        ok = ok and len(cmd) == 1 and text(cmd[0].elts[-1]) == f"{tv}.path"
+    ok, why = _gitignore_subset(blk)
     run.ob("R-15.4", f"{main.key}::gitignore-subset", ok,
-           "with --use-gitignore the list of files is not a filtered copy of the selected files (something is added, "
-           "replaced, or the filter does not ask git about the file itself)", blk)
+           f"with --use-gitignore the list of files is not a filtered copy of the selected files: {why}", blk)
+    # the decision about a file is taken from git's answer for that very path
+    okp, whyp = _gitignore_exact_paths(blk)
+    run.ob("R-15.4", f"{main.key}::gitignore-exact-paths", okp,
+           f"the answer of git check-ignore is not matched to the files exactly: {whyp}", blk)
+
+
+def _gitignore_subset(blk):
+    """(ok, why): inside the block, `files` is only replaced by (a) a list filled by appending loop elements of the old
+    `files` under a condition, or (b) a comprehension `[t for t in files if <cond>]` / filter(...) over `files`."""
+    assigns = [n for n in ast.walk(blk) if isinstance(n, ast.Assign) and any(text(t) == "files" for t in n.targets)]
+    if len(assigns) != 1:
+        return False, f"`files` is assigned {len(assigns)} times in the block"
+    v = assigns[0].value
+    if isinstance(v, ast.ListComp) and len(v.generators) == 1 and text(v.generators[0].iter) == "files" \
+            and text(v.elt) == text(v.generators[0].target) and v.generators[0].ifs:
+        return True, ""
+    if isinstance(v, ast.Call) and text(v.func) == "list" and v.args and isinstance(v.args[0], ast.Call) \
+            and text(v.args[0].func) == "filter" and len(v.args[0].args) == 2 and text(v.args[0].args[1]) == "files":
+        return True, ""
+    if isinstance(v, ast.Name):
+        newlist = v.id
+        loops = [n for n in blk.body if isinstance(n, ast.For) and text(n.iter) == "files"]
+        if len(loops) != 1:
+            return False, "the replacement list is not built by one loop over `files`"
+        tv = text(loops[0].target)
+        apps = [n for n in ast.walk(blk) if isinstance(n, ast.Call) and isinstance(n.func, ast.Attribute)
+                and n.func.attr in ("append", "extend", "insert") and text(n.func.value) == newlist]
+        if not apps or not all(a.func.attr == "append" and len(a.args) == 1 and text(a.args[0]) == tv
+                               and any(x is loops[0] for x in _anc(a)) for a in apps):
+            return False, "something other than the loop's own element is appended to the replacement list"
+        if not all(any(isinstance(x, ast.If) for x in _anc(a) if any(y is loops[0] for y in _anc(x)) or x is loops[0]) for a in apps):
+            return False, "elements are kept unconditionally"
+        init = [n for n in blk.body if isinstance(n, ast.Assign) and text(n.targets[0]) == newlist]
+        if len(init) != 1 or not (isinstance(init[0].value, ast.List) and not init[0].value.elts):
+            return False, "the replacement list does not start empty"
+        return True, ""
+    return False, f"`files` is replaced by `{text(v, 60)}`"
+
+
+def _anc(n):
+    from ..model import ancestors
+    return list(ancestors(n))
+
+
+def _gitignore_exact_paths(blk):
+    """Per-file form: the command ends with the loop element's .path and the keep/drop decision reads the return code.
+    Batch form: git's output is split on line ends / NUL only (never on white space) and matched against .path."""
+    cmds = [n for n in ast.walk(blk) if isinstance(n, ast.List) and any(isinstance(e, ast.Constant) and e.value == "check-ignore" for e in n.elts)]
+    if len(cmds) != 1:
+        return False, "cannot find the git check-ignore command"
+    cmd = cmds[0]
+    last = cmd.elts[-1]
+    loops = [a for a in _anc(cmd) if isinstance(a, ast.For) and text(a.iter) == "files"]
+    if loops and not isinstance(last, ast.Starred):
+        tv = text(loops[0].target)
+        if text(last) != f"{tv}.path":
+            return False, f"git is asked about `{text(last)}` instead of `{tv}.path`"
+        if not any("returncode" in text(n) or "exit_code" in text(n) for n in ast.walk(loops[0]) if isinstance(n, ast.If)):
+            return False, "the decision does not read git's exit status"
+        return True, ""
+    # batch form
+    splits = [n for n in ast.walk(blk) if isinstance(n, ast.Call) and isinstance(n.func, ast.Attribute)
+              and n.func.attr in ("split", "splitlines", "rsplit") and "stdout" in text(n.func.value)]
+    if not splits:
+        return False, "batch form whose output parsing is not recognised"
+    for sp in splits:
+        if sp.func.attr == "splitlines":
+            continue
+        sep = try_fold(sp.args[0], None) if False else (sp.args[0].value if sp.args and isinstance(sp.args[0], ast.Constant) else None)
+        if sep not in ("\n", "\0", "\x00"):
+            return False, (f"`{text(sp, 50)}` splits git's output on white space: a path containing a blank is cut into "
+                           f"fragments (ignored file still checked, or another file dropped)")
+    if not any(isinstance(n, ast.Compare) and ".path" in text(n) and isinstance(n.ops[0], (ast.In, ast.NotIn)) for n in ast.walk(blk)):
+        return False, "git's answer is not matched against the files' paths"
+    return True, ""
 
 
 def _contains(container, node) -> bool:
